@@ -25,6 +25,8 @@ import Verif.Drv.ScanRules
 import Verif.Drv.InlineLoop
 import Verif.Drv.RegenLeaf
 import Verif.Drv.ListStarts
+import Verif.Drv.LeafBlocks2
+import Verif.Drv.ScanRules2
 
 /-- model name → request handler (one request line in, one answer line out). -/
 def models : List (String × (String → String)) :=
@@ -66,7 +68,9 @@ def models : List (String × (String → String)) :=
    ("scanrules", Verif.Drv.ScanRules.step),
    ("inlineloop", Verif.Drv.InlineLoop.step),
    ("regenleaf", Verif.Drv.RegenLeaf.step),
-   ("liststarts", Verif.Drv.ListStarts.step)]
+   ("liststarts", Verif.Drv.ListStarts.step),
+   ("leafblocks2", Verif.Drv.LeafBlocks2.step),
+   ("scanrules2", Verif.Drv.ScanRules2.step)]
 
 partial def loop (h : IO.FS.Stream) (out : IO.FS.Stream) (f : String → String) : IO Unit := do
   let line ← h.getLine
